@@ -23,6 +23,12 @@
 #if defined(HAVE_CONFIG_H)
 #include <config.h>
 #endif
+#if defined(HAVE_EXPLICIT_BZERO) && !defined(_DEFAULT_SOURCE)
+/* explicit_bzero() is an extension: make sure that its prototype is visible
+ * when compiling in strict ISO C mode, otherwise the call below is an
+ * implicit declaration and the size argument is not widened to size_t */
+#define _DEFAULT_SOURCE 1
+#endif
 #define __STDC_WANT_LIB_EXT1__ 1 /* Detect if the C library has memset_s */
 #include <stdlib.h>
 #include <string.h>
